@@ -669,3 +669,16 @@ pub fn gc_info<VM: VMBinding>(mmtk: &crate::MMTK<VM>) -> GcInfo {
 pub fn spurious_wakeup<VM: VMBinding>(mmtk: &crate::MMTK<VM>, all: bool) {
     mmtk.scheduler.verif_spurious_wakeup(all);
 }
+
+/// The work bucket stages of this build, in scheduling order:
+/// `(index, name, is_stw, is_sequentially_opened)`.
+pub fn stage_table() -> Vec<(usize, String, bool, bool)> {
+    use crate::scheduler::WorkBucketStage;
+    use enum_map::Enum;
+    (0..WorkBucketStage::LENGTH)
+        .map(|i| {
+            let s = WorkBucketStage::from_usize(i);
+            (i, format!("{:?}", s), s.is_stw(), s.is_sequentially_opened())
+        })
+        .collect()
+}
